@@ -328,6 +328,7 @@ impl CodegenContext {
 
         log::trace!("\n* NEXT PASS ({}) *", self.pass_idx);
         self.segments.values_mut().for_each(|s| s.reset());
+        self.current_segment = self.segments.keys().next().cloned();
         self.test_elements.clear();
         self.source_map.clear();
     }
